@@ -71,9 +71,9 @@ ASSUMPTIONS = [
     "in search_options is dropped by check_and_merge_defaults and therefore also means the default); above the limit only "
     "'subset of the reference, at most max_size cases, some case at the highest level kept' is claimed",
     "a script may report the level it has just reported once more with another value (5-15 % of the CONTINUE-answered reports in "
-    "3/4 of the asynchronous schedules with searcher_data rungs / all): the observation keeps the FIRST value of the run; not "
-    "generated for rungs_and_last (open candidate C14-F4: the unchanged library drops the last observation and raises on the next "
-    "report; consequences there carry the key suffix rungs_and_last_after_repeated_report_of_level) nor for synchronous Hyperband",
+    "3/4 of the asynchronous schedules, every searcher_data): the observation keeps the FIRST value of the run; under "
+    "rungs_and_last a repeated non-rung 'last' level stays (with its first value) until the next level is reported (C14-F4, fixed; "
+    "consequences there carry the key suffix rungs_and_last_after_repeated_report_of_level); not generated for synchronous Hyperband",
     "in 40 % of the stopping / promotion schedules with searcher bayesopt the first experiment is drained (no new suggestions, "
     "running trials end), the searcher is saved (get_state, pickled), restored (clone_from_state) and handed to a second "
     "HyperbandScheduler(searcher=<clone>) which continues with new trials; ALL observations, before and after, are compared "
@@ -129,6 +129,11 @@ def floors(tier):
         "decided:repeated_report_changes_nothing:stopping:all": 20 * k,
         "decided:repeated_report_changes_nothing:promotion:rungs": 20 * k,
         "decided:repeated_report_changes_nothing:promotion:all": 20 * k,
+        "decided:repeated_report_changes_nothing:stopping:rungs_and_last": 20 * k,
+        "decided:repeated_report_changes_nothing:promotion:rungs_and_last": 20 * k,
+        "decided:repeated_report_keeps_last_observation:rungs_and_last": 40 * k,
+        "decided:next_level_after_repeated_last_level:rungs_and_last": 30 * k,
+        "decided:repeated_report_at_rung_level:rungs_and_last": 15 * k,
         "repeated_report_of_selected_level": 100 * k,
         "searcher_restores": 15 * k,
         "searcher_restores:mode_max": 5 * k,
@@ -257,10 +262,10 @@ def expand(spec):
     if p["probe_model"] and p["searcher"] == "hypertune" and p["searcher_data"] != "rungs":
         p["gp_model"] = "gp_multitask"  # see above: the independent-GPs model cannot fantasise pending entries off rung levels
     # repeated reports: a script may report the SAME level twice in a row with a different value (quick estimate, then the
-    # full validation score). Not generated for searcher_data='rungs_and_last' (the unchanged library loses observations / raises
-    # there: candidate finding C14-F4, reproducers set dup_rate explicitly) and not for the synchronous scheduler.
+    # full validation score). All data policies (rungs_and_last: C14-F4, fixed in 71733e4 — consequences there keep the key
+    # suffix rungs_and_last_after_repeated_report_of_level); not for the synchronous scheduler.
     dr = rng.choice([0.0, 0.05, 0.1, 0.15])
-    p["dup_rate"] = 0.0 if (typ == "sync" or p["searcher_data"] == "rungs_and_last") else dr
+    p["dup_rate"] = 0.0 if typ == "sync" else dr
     # save / restore of the searcher in the middle of the history: get_state -> (pickle) -> clone_from_state -> second
     # HyperbandScheduler(searcher=<clone>) which keeps feeding it results (GPMultiFidelitySearcher only: the other searchers do
     # not provide a clone of their own class)
@@ -369,6 +374,7 @@ class Monitor:
         self.first = {}       # tid -> {level: raw value at first report}
         self.later = {}       # tid -> {level: [raw values of re-reports]}
         self.repeats = {}     # tid -> {level: [raw values of repeated reports of the level within the same run]}
+        self.repeat_pending_next = set()  # rungs_and_last: trials whose non-rung last level was just repeated
         self.restored = False  # the searcher was saved and restored (clone_from_state) earlier in this history
         self.maxlev = {}      # tid -> largest level reported
         self.exp = {}         # tid -> {level: mapped expected value}
@@ -397,11 +403,21 @@ class Monitor:
                 self.o.count("repeated_report_of_level")
                 if level in self.exp.get(tid, {}):
                     self.o.count("repeated_report_of_selected_level")
+                if self.policy == "rungs_and_last":
+                    if level in self.rungset:
+                        self.o.count("decided:repeated_report_at_rung_level:rungs_and_last")
+                    else:
+                        self.o.count("decided:repeated_report_keeps_last_observation:rungs_and_last")
+                        self.repeat_pending_next.add(tid)
             else:
                 self.later.setdefault(tid, {}).setdefault(level, []).append(value)
                 self.o.count("rereported_level")
             return False
         f[level] = value
+        if tid in self.repeat_pending_next:
+            # the report where the unrepaired library raised: the repeated non-rung 'last' level is replaced by the new level
+            self.repeat_pending_next.discard(tid)
+            self.o.count("decided:next_level_after_repeated_last_level:rungs_and_last")
         prev_max = self.maxlev.get(tid, 0)
         self.maxlev[tid] = max(prev_max, level)
         e = self.exp.setdefault(tid, {})
